@@ -74,3 +74,33 @@ Proof.
   split; [exact H1|]. split; [exact H2|]. split; [cbn; lia|]. split; [exact H3|].
   intros H. vm_compute in H. discriminate.
 Qed.
+
+(* ---------- the tree the check EXECUTES (wave 2): QuadTree(Y, N) = tsne_tree (auto_root + fill) ----------
+   The GM stream of checks/c17.py runs `bh_gradient data rows theta t` with `tsne_tree slack fuel data N =
+   Some (Done ok t)` through extraction against the real computeGradient; this is bh_gradient_limit for exactly
+   that tree (the root box computed from the data contains the points: c18's auto_root_in_root). *)
+Theorem bh_gradient_limit_tsne_tree_thm : forall slack fuel data ok t (rows : list (list (nat * Q))),
+  let N := length rows in
+  0 <= slack -> (N <= length data)%nat -> NoCo data (seq 0 N) ->
+  tsne_tree slack fuel data N = Some (Done ok t) ->
+  ~ total_sq data (seq 0 N) (seq 0 N) == 0 ->
+  exists theta0, 0 < theta0 /\
+    forall theta, 0 <= theta -> theta < theta0 ->
+      exists g, bh_gradient data rows theta t = Some g /\
+                rows_eq g (closed_rows 0 data (seq 0 N) rows (total_sq data (seq 0 N) (seq 0 N))).
+Proof.
+  intros slack fuel data ok t rows N Hs HN HNo E HZ. unfold tsne_tree in E.
+  destruct (auto_root slack data N) as [c|] eqn:Ea; [|discriminate]. injection E as E. unfold fill in E.
+  exact (bh_gradient_limit_thm fuel data c ok t rows (auto_root_in_root slack data N c Hs HN Ea) HNo HN E HZ).
+Qed.
+
+Example bh_gradient_limit_tsne_tree_nonvacuous_ex :
+  0 <= (1 # 100000) /\ (length ex_rows <= length ex_data2)%nat /\ NoCo ex_data2 (seq 0 (length ex_rows)) /\
+  (exists ok t, tsne_tree (1 # 100000) 12 ex_data2 (length ex_rows) = Some (Done ok t)) /\
+  ~ total_sq ex_data2 (seq 0 (length ex_rows)) (seq 0 (length ex_rows)) == 0.
+Proof.
+  destruct ex_hyps_noco as (_ & H2 & _).
+  split; [discriminate|]. split; [cbn; lia|]. split; [exact H2|].
+  split; [eexists; eexists; vm_compute; reflexivity|].
+  intros H. vm_compute in H. discriminate.
+Qed.
